@@ -17,6 +17,11 @@ C10 — line-protocol driver of the model (core only).
   scan key|val|exact|mst|skey|id …           → p <prefix> items <n> <item>…   (seek + scan over the sorted
                                                single-tsid items of the visible series)
 
+  tfinit T:<text> P:<prefix> E:<expr> C:<compiles> ME:<matches ""> A:<syntax tree> V:<value/reMatch/spec;…>
+                                             → the R token of the atom (below) as `tagFilter.Init`, the scan and
+                                               the prune step of the model derive it, then
+                                               or=<or-suffixes> pre=<value prefix> cost=<n> em=<isEmptyMatch> err=<0|1>
+
 PRED = <nre> R… <prefix tokens>: `& a b`, `| a b`, `( a`, `= k v`, `! k v`, `~ k i`, `^ k i`, `*`.
 R = R:<matchEmpty><literal><emptyText>:<tf.value>:<text>:<value/tf/prune;…> — the matcher tables
 of the i-th regex atom as the harness read them off the real tag filter (`_` = absent tag).
@@ -24,6 +29,7 @@ Strings are hex with an `x` prefix.
 -/
 import OG.C10.Model
 import OG.C10.Bytes
+import OG.C10.TagFilter
 
 namespace OG.C10
 
@@ -205,6 +211,100 @@ def perrText : Bytes.PErr → String
   | .measurement .tooSmallForMeasurement => "err too-small-for-measurement"
   | .measurement .slicePanic => "panic"
 
+
+/-! ### `tfinit`: the model's `tagFilter.Init` on the facts the regexp library supplied -/
+
+def sopOfCode : String → Option TF.SOp
+  | "nm" => some .noMatch | "em" => some .emptyMatch | "li" => some .literal | "cc" => some .charClass
+  | "an" => some .anyCharNotNL | "ac" => some .anyChar | "bl" => some .beginLine | "el" => some .endLine
+  | "bt" => some .beginText | "et" => some .endText | "wb" => some .wordBoundary | "nw" => some .noWordBoundary
+  | "cp" => some .capture | "st" => some .star | "pl" => some .plus | "qu" => some .quest | "rp" => some .repeat_
+  | "ct" => some .concat | "al" => some .alternate
+  | _ => none
+
+def takeNat : List Char → Nat → Nat × List Char
+  | c :: t, acc => if c.isDigit then takeNat t (acc * 10 + (c.toNat - 48)) else (acc, c :: t)
+  | [], acc => (acc, [])
+
+/-- runes: decimal numbers separated by '.', closed by ']' -/
+partial def parseRunes : List Char → List Nat → Option (List Nat × List Char)
+  | ']' :: t, acc => some (acc.reverse, t)
+  | '.' :: t, acc => parseRunes t acc
+  | c :: t, acc =>
+    if c.isDigit then
+      let (n, rest) := takeNat (c :: t) 0
+      parseRunes rest (n :: acc)
+    else none
+  | [], _ => none
+
+mutual
+/-- `<op:2 letters><fold:0|1>[runes](subs)` -/
+partial def parseSre : List Char → Option (TF.Sre × List Char)
+  | a :: b :: f :: '[' :: t => do
+    let op ← sopOfCode (String.ofList [a, b])
+    let fold ← bit f
+    let (rs, t) ← parseRunes t []
+    match t with
+    | '(' :: t =>
+      let (subs, t) ← parseSubs t []
+      some (.node op fold rs subs, t)
+    | _ => none
+  | _ => none
+partial def parseSubs : List Char → List TF.Sre → Option (List TF.Sre × List Char)
+  | ')' :: t, acc => some (acc.reverse, t)
+  | ',' :: t, acc => parseSubs t acc
+  | cs, acc => do
+    let (s, t) ← parseSre cs
+    parseSubs t (s :: acc)
+end
+
+def field (pre : String) (t : String) : Option String :=
+  if t.startsWith pre then some (t.drop pre.length).toString else none
+
+/-- rows `value|_ / reMatch bit or - / spec bit` -/
+def parseInRow (t : String) : Option (Option Bytes.B × Option Bool × Bool) :=
+  match t.splitOn "/" with
+  | [v, rm, sp] => do
+    let v ← if v == "_" then some none else (unhexB v).map some
+    let rm ← match rm.toList with | ['-'] => some none | [c] => (bit c).map some | _ => none
+    let sp ← match sp.toList with | [c] => bit c | _ => none
+    some (v, rm, sp)
+  | _ => none
+
+def b2c (b : Bool) : Char := if b then '1' else '0'
+
+def tfinitOp : List String → Option String
+  | [t, p, e, c, me, a, v] => do
+    let text ← unhexB (← field "T:" t)
+    let pfx ← unhexB (← field "P:" p)
+    let expr ← unhexB (← field "E:" e)
+    let cok ← match (← field "C:" c).toList with | [x] => bit x | _ => none
+    let mE ← match (← field "ME:" me).toList with | [x] => bit x | _ => none
+    let (ast, rest) ← parseSre (← field "A:" a).toList
+    if !rest.isEmpty then none else
+    let rows ← ((← field "V:" v).splitOn ";").mapM parseInRow
+    let rin : TF.RxIn := ⟨text, pfx, expr, cok, ast, mE⟩
+    let tf := TF.initRegex rin false
+    -- reMatch / matches as tables over the candidate values of this atom
+    let specOf (v : Bytes.B) : Bool :=
+      match rows.find? (fun r => r.1 == (if v.isEmpty then none else some v)) with
+      | some r => r.2.2
+      | none => false
+    let outRows := rows.map fun (v, rm, _) =>
+      match v with
+      | none => s!"_/0/{b2c (tf.pruneMatch specOf [])}"
+      | some v =>
+        let reMatch (_ : Bytes.B) : Bool := rm.getD false
+        s!"{showB v}/{b2c (tf.accepts reMatch v)}/{b2c (tf.pruneMatch specOf v)}"
+    -- a row that needs `reMatch` must carry the bit (reject, never default)
+    let needs (v : Bytes.B) : Bool := tf.accepts (fun _ => true) v != tf.accepts (fun _ => false) v
+    if rows.any (fun r => match r.1 with | some v => needs v && r.2.1.isNone | none => false) then none else
+    let ors := if tf.orSuffixes.isEmpty then "-" else ",".intercalate (tf.orSuffixes.map showB)
+    some (s!"R:{b2c mE}{b2c tf.isLiteralRegexp}{b2c tf.isEmptyValue}:{showB tf.value}:{showB text}:" ++
+      ";".intercalate outRows ++
+      s!" or={ors} pre={showB tf.valPrefix} cost={tf.matchCost} em={b2c tf.isEmptyMatch} err={b2c tf.initErr}")
+  | _ => none
+
 def byteOp (s : St) : List String → Option String
   | ["mtv", v] => do some ("b " ++ showB (Bytes.marshalTagValue [] (← unhexB v)))
   | ["utv", b] => do
@@ -231,11 +331,12 @@ def byteOp (s : St) : List String → Option String
   | ["scan", "skey", n, tags] => do
     let tags ← encTags (← parseTags tags)
     some (scanAnswer s (Bytes.seriesKeyPrefix (Bytes.indexKey (← unhexB n) tags)))
+  | "tfinit" :: rest => tfinitOp rest
   | ["scan", "id", i] => do some (scanAnswer s ([OG.Gen.C10.nsPrefixTSIDToKey] ++ Bytes.be64 (← i.toNat?)))
   | _ => none
 
 def isByteOp (k : String) : Bool :=
-  k == "mtv" || k == "utv" || k == "ck" || k == "uck" || k == "cmp" || k == "parse" || k == "scan"
+  k == "mtv" || k == "utv" || k == "ck" || k == "uck" || k == "cmp" || k == "parse" || k == "scan" || k == "tfinit"
 
 def sortIds (l : List Id) : List Id := l.mergeSort (fun a b => decide (a ≤ b))
 
